@@ -80,6 +80,17 @@ def tags(text):
     return re.findall(r"\[([a-z_]+\.[a-z_]+)\]\s*$", text, re.M)
 
 
+def records(log):
+    """split a warning stream into records (a record starts with '<source>:<line>: (LEVEL/n)' and may span lines)"""
+    out = []
+    for ln in log.splitlines(keepends=True):
+        if re.match(r"^\S.*?:(\d+:)? \((DEBUG|INFO|WARNING|ERROR|SEVERE)/\d\)", ln) or not out:
+            out.append(ln)
+        else:
+            out[-1] += ln
+    return out
+
+
 def match(tag, sup):
     ty, st = tag.split(".")
     for s in sup:
@@ -328,6 +339,72 @@ class DocutilsSystem(System):
                    transitions=nrun, validated=nrun - 1, stats={"runs": nrun})
 
 
+class SlotSystem(System):
+    """the C01 template x atom product under the suppression relation: whatever warning a hostile value provokes, in whatever syntactic position"""
+
+    name = "slots"
+    chunk = 4
+
+    def __init__(self, tier):
+        super().__init__(tier)
+        from . import c01
+
+        self.T, self.A = c01.TEMPLATES, c01.ATOMS
+        self.description = (f"{len(self.T)} one-slot templates x {len(self.A)} atoms (the C01 product): for every document that emits a tagged warning, "
+                            "each emitted tag and the bare type 'myst' are suppressed in turn")
+
+    def prepare(self, ctx):
+        self.dir = ctx.scratch / "c14s"
+        self.dir.mkdir(exist_ok=True)
+        self.settings = {"myst_enable_extensions": EXT, "myst_heading_anchors": 2}
+
+    def bounds(self):
+        return {"templates": len(self.T), "atoms": len(self.A)}
+
+    def rule(self):
+        return "one case = (template, atom); transitions = suppressed re-runs; non-trivial = a tagged warning was emitted; an escaping exception is C01's"
+
+    def cases(self):
+        for t in range(len(self.T)):
+            for a in range(len(self.A)):
+                yield [t, a]
+
+    def run(self, case):
+        t, a = case
+        body = self.T[t].replace("@", self.A[a])
+        text = body if body.startswith("---") else "# T\n\nPRE\n\n" + body + "\nPOST\n"
+        src = str(self.dir / "x.md")
+        viol = []
+
+        def bad(clause, msg, diff=None, **sig):
+            viol.append(violation(clause, {"clause": clause, **sig}, f"template {t} atom {a}: {msg}", text=text, diff=diff))
+
+        def run2(sup):
+            s = dict(self.settings, myst_suppress_warnings=list(sup))
+            return docutils_doctree(text, s, source_path=src)
+
+        try:
+            d0, w0 = run2([])
+            emitted = sorted(set(tags(w0)))
+            node_tags = {x for sm in d0.findall(nodes.system_message) for x in tags(sm.astext())}
+            for x in set(emitted) | node_tags:
+                if x.split(".")[0] == "myst" and x not in CATALOGUE:
+                    bad("catalogue", f"tag [{x}] is not in the documented catalogue", tag=x)
+            nrun = 1
+            for sup in ([[x] for x in emitted] + [["myst"]] if emitted else []):
+                nrun += 1
+                d1, w1 = run2(sup)
+                exp_w = "".join(r for r in records(w0) if not (tags(r) and match(tags(r)[-1], sup)))
+                if w1 != exp_w:
+                    bad("suppress-log", f"suppress_warnings={sup}: log is {w1!r}, expected {exp_w!r}")
+                if d1.pformat() != strip_nodes(d0, sup):
+                    bad("suppress-tree", f"suppress_warnings={sup}: the doctree changed beyond the removal of the tagged system messages",
+                        cause=_cause(strip_nodes(d0, sup), d1.pformat()), diff=_diff(strip_nodes(d0, sup), d1.pformat()))
+        except (Exception, RecursionError) as exc:
+            return Obs(digest=("exc", type(exc).__name__), nontrivial=False, violations=viol[:2])
+        return Obs(digest=(tuple(emitted), tuple(sorted(node_tags))), nontrivial=bool(emitted), violations=viol[:3], transitions=nrun, validated=nrun - 1)
+
+
 def _cause(a, b):
     """Classify a tree difference narrowly, so that a known finding cannot hide a different one."""
     import difflib
@@ -465,7 +542,7 @@ class SphinxSystem(System):
 
 
 def systems(tier):
-    return [StaticSystem(tier), DocutilsSystem(tier), SphinxSystem(tier)]
+    return [StaticSystem(tier), DocutilsSystem(tier), SlotSystem(tier), SphinxSystem(tier)]
 
 
 def vacuity(results):
